@@ -469,7 +469,7 @@ def run(tier, seed):
     desc = describe(tier, seed)
     ts = tasks(tier, seed)
     acc = core.Acc()
-    for r in core.pmap(core.safe_task(run_task, PROPERTY, tier, seed), list(enumerate(ts))):
+    for r in core.pmap(core.safe_task(run_task, PROPERTY, tier, seed), [(i, ts[i]) for i in core.selected(len(ts))]):
         acc.merge(r)
     merges_n = sum(v for k, v in acc.outcomes.items() if k == 'merge')
     scheds_n = sum(v for k, v in acc.outcomes.items() if str(k).startswith('sched'))
